@@ -458,4 +458,21 @@ example : (report (exec (Recv.init true 4)
       [.pkt ⟨1, 0⟩, .pkt ⟨2, 1⟩, .report, .pkt ⟨3, 2⟩, .pkt ⟨8, 3⟩]).1).2
     = some { extSeq := 8, fractionLost := 170, totalLost := 4 } := by decide
 
+/-! ## Atomicity of `report()` and `ProcessPacket2` — the structural fact behind the step semantics
+
+`exec` treats every `ProcessPacket2` call and every `report()` call as one indivisible step.  For
+the Go code this is true because each of them is ONE exclusive critical section of the receiver's
+mutex.  The facts are regenerated from /repo on every run (facts/recv.json):
+`reportExclusiveSection` — `report()` starts with `rr.mutex.Lock(); defer rr.mutex.Unlock()` and,
+before the closing brace of the function, contains the snapshot of both loss counters and both
+interval resets; `processPacketExclusive` — the same shape for `ProcessPacket2`; and every mention
+of the mutex in receiver.go belongs to such a whole-function `Lock`/`RLock` + deferred unlock pair,
+so no function releases and re-acquires the lock in its body ("lock narrowing").  A report that
+snapshots under one critical section and resets under another loses the losses accounted in
+between from every report's fraction — `report_fields_history` would no longer describe the code. -/
+theorem report_is_one_exclusive_section :
+    Recv.reportExclusiveSection = true ∧ Recv.processPacketExclusive = true ∧
+    Recv.mutexMentions = 2 * (Recv.exclusiveFunctionSections + Recv.sharedFunctionSections) := by
+  decide
+
 end Rtsp.Recv.C14
